@@ -46,6 +46,17 @@ let parse_budget (sc : scase) (il : ev list) : string option =
     let seen = List.length (List.filter (function CbParse _ -> true | _ -> false) il) in
     let sent = List.length (List.filter (fun f -> query_of f <> None) (client_frames sc)) in
     Some (Printf.sprintf "the parse function was called with %d texts that are not, in order, query texts of complete Query/Parse messages within the limit (%d such messages were sent)" seen sent)
+(* likewise for COPY data: the payloads handed to a handler are, in order and each at most once, bodies of complete
+   CopyData messages within the limit that the client sent *)
+let data_budget (sc : scase) (il : ev list) : string option =
+  let sent = List.filter_map (function FMsg (t, body) when int_of_byte t = 100 -> Some body | _ -> None) (client_frames sc) in
+  let seen = List.filter_map (function CbOp (OData b) -> Some b | _ -> None) il in
+  let rec subseq a b = match a, b with
+    | [], _ -> true
+    | _, [] -> false
+    | x :: a', y :: b' -> if x = y then subseq a' b' else subseq a b' in
+  if subseq seen sent then None
+  else Some (Printf.sprintf "a COPY handler was handed %d payloads that are not, in order, bodies of the %d complete CopyData messages the client sent" (List.length seen) (List.length sent))
 let with_budget (check : sexp list -> verdict * string option) (fields : sexp list) : verdict * string option =
   let (v, cross) = check fields in
   match v with
@@ -56,7 +67,9 @@ let with_budget (check : sexp list -> verdict * string option) (fields : sexp li
        | Some il when not r.obs_.sslreq ->
            (match parse_budget r.case_ il with
             | Some why -> (OracleFail why, cross)
-            | None -> (v, cross))
+            | None -> (match data_budget r.case_ il with
+                       | Some why -> (OracleFail why, cross)
+                       | None -> (v, cross)))
        | _ -> (v, cross))
 let check_C05 = check_with true oracle_C05
 let check_C06 = with_budget (check_with true oracle_turns)
@@ -100,11 +113,40 @@ let check_C10_tls (fields : sexp list) : verdict * string option =
         else P_c11.check fields
     | _ -> P_c11.check fields
   end
+(* every CopyIn call of a handler that succeeded was announced: the result "ok" of a CopyIn operation is preceded
+   immediately by this call's own CopyInResponse. The operations of the running statement are followed along its
+   program (looked up by the id the CbExec event carries; skipped when two configured statements share an id). *)
+let copyin_announced (sc : scase) (il : ev list) : bool =
+  let stmts = List.concat_map (fun (_, r) -> match r with POk ss -> ss | PErr _ -> []) sc.sc_parse in
+  let prog_of id = (match List.filter (fun s -> s.s_id = id) stmts with
+    | [] -> None
+    | s :: rest -> if List.for_all (fun s' -> s'.s_prog = s.s_prog) rest then Some s.s_prog else None) in
+  let rec go prev pending = function
+    | [] -> true
+    | (CbExec (id, _) as e) :: r -> go (Some e) (prog_of id) r
+    | (CbOp res as e) :: r ->
+        (match pending with
+         | Some (o :: ops) ->
+             let ok = (match o, res with
+               | HCopyIn _, OOk -> (match prev with Some (Out (BCopyIn _)) -> true | _ -> false)
+               | _ -> true) in
+             ok && go (Some e) (Some ops) r
+         | _ -> go (Some e) pending r)
+    | Consume :: r -> go prev pending r
+    | e :: r -> go (Some e) pending r in
+  go None None il
+let check_C13 = check_with true (fun sc log -> oracle_C13 sc log && oracle_C13_turns sc log && oracle_C13_strict sc log && oracle_early_end sc log && oracle_early_scan sc log && copyin_announced sc log)
+let has_copy (sc : scase) : bool =
+  List.exists (fun (_, r) -> match r with
+    | POk ss -> List.exists (fun s -> List.exists (function HCopyIn _ | HCopyRead -> true | _ -> false) s.s_prog) ss
+    | PErr _ -> false) sc.sc_parse
 let check_C10 fields =
   if field_opt "tlsobs" fields <> None then check_C10_tls fields else
+  (* configurations with COPY handlers are outside [oracle_C10] (its model theorem assumes none): the oversized
+     messages inside a COPY are judged by the COPY oracles *)
+  if has_copy (case_of fields) then check_C13 fields else
   (* lock-step cases: the per-message discipline; all cases: a startup packet within the limit is served *)
   check_with false (fun sc log -> if is_lock fields then oracle_C10 sc log else startup_served sc log) fields
-let check_C13 = check_with true (fun sc log -> oracle_C13 sc log && oracle_C13_turns sc log && oracle_C13_strict sc log && oracle_early_end sc log && oracle_early_scan sc log)
 let check_C19 fields =
   (* lock-step cases are also judged by the per-message discipline (Terminate rule) *)
   check_with false (fun sc log -> oracle_C19 sc log && (not (is_lock fields) || oracle_turns sc log)) fields
